@@ -1,6 +1,6 @@
 (* Extraction of every executable Model and Spec entry point.  ExtrOcamlBasic only. *)
 From Coq Require Import Extraction ExtrOcamlBasic.
-From SA Require Import Base.Prelude Solr.MM Solr.MM_Spec Kernels.Intersect Kernels.Linear Kernels.Spec Codec.Codec Codec.Codec_Spec Index.Index Index.Index_Spec Query.Phrase Query.Phrase_Spec Score.BM25 Score.Score Query.Range Query.Range_Spec View.View View.View_Spec.
+From SA Require Import Base.Prelude Solr.MM Solr.MM_Spec Kernels.Intersect Kernels.Linear Kernels.Spec Codec.Codec Codec.Codec_Spec Index.Index Index.Index_Spec Query.Phrase Query.Phrase_Spec Score.BM25 Score.Score Query.Range Query.Range_Spec View.View View.View_Spec View.Purity.
 Extraction "samodel.ml"
   mm_f64 solr_mm
   intersect_drop intersect_keep adjacent intersect_with_adjacents lowbit
@@ -16,4 +16,5 @@ Extraction "samodel.ml"
   score_bm25 score_args kernel_bits score_bits
   termfreqs_range phrase_freqs_range tf_range_spec phrase_range_spec aligned
   of_index select_chain copy v_termfreqs v_phrase_freqs v_docfreq v_doclengths v_positions v_score_bm25 v_score_args
-  view_docs compose_rows rows0.
+  view_docs compose_rows rows0
+  run init_pool.
